@@ -7,6 +7,7 @@ import (
 	"github.com/redis/go-redis/v9"
 	"go.uber.org/zap"
 	"math"
+	"strings"
 	"time"
 )
 
@@ -81,7 +82,7 @@ func (t *ttlRdsCache) Remove(ctx context.Context, key string) error {
 }
 
 func (t *ttlRdsCache) Clear(ctx context.Context) {
-	var scanCmd = t.cmd.Scan(ctx, 0, t.prefix+"*", 0)
+	var scanCmd = t.cmd.Scan(ctx, 0, escapeMatch(t.prefix)+"*", 0)
 	var err = scanCmd.Err()
 	if err != nil {
 		ulog.Error("ttlRdsCache.Clear.Scan.error", zap.String("prefix", t.prefix), zap.Error(err))
@@ -95,6 +96,20 @@ func (t *ttlRdsCache) Clear(ctx context.Context) {
 			return
 		}
 	}
+}
+
+// escapeMatch quotes the characters a redis key pattern gives a meaning to, so that
+// the prefix is matched as the string it is.
+func escapeMatch(s string) string {
+	var b strings.Builder
+	for i := 0; i < len(s); i++ {
+		switch s[i] {
+		case '*', '?', '[', ']', '\\':
+			b.WriteByte('\\')
+		}
+		b.WriteByte(s[i])
+	}
+	return b.String()
 }
 
 // expiration converts a ttl in seconds into the duration go-redis expects;
